@@ -92,7 +92,7 @@ def run(rep, tier):
                     p = ep.Param(st, ename + '_' + wire.replace('-', ''), L, allow_nontext=True)
                     spec['header'][wire] = p
                 elif kind == 'path':
-                    p = ep.Param(st, ename + '_' + wire, L, maxn=1)
+                    p = ep.Param(st, ename + '_' + wire, L, maxn=1, forbid=(0x2f,))
                     st.pc.append(p.n == 1)
                     spec['path'][wire] = p
                 else:
